@@ -1009,3 +1009,219 @@ package mat
 //@ panics iff !valid, before-writes
 //@ writes t.mat.Data[i*t.mat.Stride+j]
 //@ ensures same(t.mat.Data[i*t.mat.Stride+j], v)
+
+// ---- factorization types: Cholesky, LU (QR, LQ: outside the subset) (C07 / C05) ---------------
+//
+// Representation invariants. A Cholesky holds nil or an upper TriDense that it
+// owns ("the chol pointer must never be retained outside"); the TriDense is
+// either emptied (N == 0, Stride == 0: after Reset or a failed Factorize) or an
+// n x n non-unit upper triangle. cholOK is the package's own test valid(): the
+// receiver "has been successfully initialized by a call to Factorize".
+// An LU holds nil or a square Dense with the row exchanges (swaps, as produced
+// by Dgetrf) and the row permutation (piv), both of length n with entries in
+// [0, n); luOK is isValid().
+
+//@ spec wfCholTri(t *TriDense) bool = t.mat.N >= 0 && t.mat.N <= t.cap && ((t.mat.Stride == 0 && t.mat.N == 0) ||
+//@   (t.mat.N > 0 && t.mat.Stride >= t.mat.N && len(t.mat.Data) >= (t.mat.N-1)*t.mat.Stride+t.mat.N && t.mat.Uplo == blas.Upper && t.mat.Diag == blas.NonUnit))
+//@ spec wfChol(c *Cholesky) bool = c != nil && (c.chol == nil || wfCholTri(c.chol))
+//@ spec cholOK(c *Cholesky) bool = c.chol != nil && c.chol.mat.Stride != 0
+
+// ASSUMPTION (trusted model of the sync.Pool workspaces, needed by Cholesky.Factorize
+// only): without these blocks every function that reaches getFloat64s / getInts is
+// reported "OUTSIDE-SUBSET: array of non-scalar [63]sync.Pool". A slice taken from
+// the pool has the requested length and is not visible to the caller (pool
+// discipline: "putFloat64s must not be called with a slice where references to the
+// underlying data have been kept"); a negative length would index the pool array
+// out of range, hence l >= 0 is a precondition checked at every call site.
+
+//@ trusted getFloat64s
+//@ requires l >= 0
+//@ writes nothing
+//@ ensures len(result) == l && fresh(result)
+
+//@ trusted putFloat64s
+//@ writes nothing
+
+//@ trusted getInts
+//@ requires l >= 0
+//@ writes nothing
+//@ ensures len(result) == l && fresh(result)
+
+//@ trusted putInts
+//@ writes nothing
+
+// ASSUMPTION (trusted, body not checked): Cholesky.updateCond is "OUTSIDE-SUBSET:
+// defer with arguments" (defer putFloat64s(work)); it calls Dlantr / Dpocon on the
+// factor with pooled workspaces and stores the condition number. Assumed: called
+// on a factorized receiver it changes the field cond only.
+
+//@ trusted Cholesky.updateCond
+//@ requires c != nil && c.chol != nil && wfCholTri(c.chol) && c.chol.mat.N > 0
+//@ modifies c.cond
+//@ writes nothing
+
+// Factorize for a *SymDense operand: the operand must not be empty
+// (ErrZeroLength); the receiver (any previous state, also a failed or Reset one)
+// becomes either a valid n x n factorization (ok) or an emptied one (!ok); Dlansy
+// and Dpotrf are called inside their contracts for every n > 0 and every stride of
+// the operand; the only caller-visible cells written are the receiver's own
+// storage (t = the receiver's TriDense at entry), so the operand is not written.
+// Relative to the two ASSUMPTION blocks above.
+//
+// FINDING ("before-writes" left out: panic.order "panic(ErrZeroLength) before any
+// write" sat): on a receiver that already holds a TriDense, Factorize resets it
+// BEFORE the size of the operand is checked (c.chol.Reset(); c.chol.reuseAsNonZeroed(0, Upper)):
+//   c.Factorize(NewSymDense(2, {2,1,1,2})); var e SymDense; c.Factorize(&e)
+// panics ErrZeroLength and the valid factorization in c is lost
+// (c.SolveTo afterwards panics "mat: invalid Cholesky factorization").
+//
+// (142 s, of which the Houdini rounds for the inlined copySymIntoTriangle loops are most: thorough tier)
+//@ func Cholesky.Factorize props: C07(safety) C05(frame)
+//@ option tier=thorough
+//@ let sa = unbox(a, *SymDense)
+//@ let t = c.chol
+//@ requires wfChol(c) && hasType(a, *SymDense) && wfSym(sa)
+//@ valid sa.mat.N > 0
+//@ panics iff !valid
+//@ modifies c, t
+//@ writes t.mat.Data[k] for k in 0..cap(t.mat.Data) if t != nil
+//@ ensures wfChol(c) && (ok ==> cholOK(c) && c.chol.mat.N == old(sa.mat.N)) && (!ok ==> !cholOK(c))
+
+// Reset: the receiver becomes "not factorized" and keeps its storage; no element is written.
+
+//@ func Cholesky.Reset props: C07(safety)
+//@ requires wfChol(c)
+//@ let t = c.chol
+//@ modifies c, t
+//@ writes nothing
+//@ ensures wfChol(c) && !cholOK(c)
+
+// SymmetricDim / Dims / At on a zero value or on a factorized receiver.
+//
+// FINDING (requires narrowed by "c.chol == nil || c.chol.mat.Stride != 0"; without
+// it: panic.never "panic(badTriangle)" sat): TriDense.Reset zeroes Uplo and
+// TriDense.Triangle panics for Uplo == 0, so on a receiver that was Reset, or whose
+// Factorize returned false, SymmetricDim, Dims and At panic with the string
+// "mat: invalid triangle" instead of returning 0 (as the zero value does) resp.
+// panicking with ErrRowAccess:
+//   c.Factorize(NewSymDense(2, {2,1,1,2})); c.Reset(); c.Dims()   // panics "mat: invalid triangle"
+//   var t TriDense; t.Triangle()                                  // the same ("orientation is only valid when n is not empty")
+
+//@ func Cholesky.SymmetricDim props: C07(safety)
+//@ requires wfChol(c) && (c.chol == nil || c.chol.mat.Stride != 0)
+//@ writes nothing
+//@ ensures result == ite(c.chol == nil, 0, c.chol.mat.N)
+
+//@ func Cholesky.Dims props: C07(safety)
+//@ requires wfChol(ch) && (ch.chol == nil || ch.chol.mat.Stride != 0)
+//@ writes nothing
+//@ ensures r == ite(ch.chol == nil, 0, ch.chol.mat.N) && c == r
+
+//@ func Cholesky.At props: C07(safety)
+//@ requires wfChol(c) && (c.chol == nil || c.chol.mat.Stride != 0)
+//@ let n = ite(c.chol == nil, 0, c.chol.mat.N)
+//@ valid 0 <= i && i < n && 0 <= j && j < n
+//@ panics iff !valid, before-writes
+//@ writes nothing
+
+// SolveTo for a *Dense right-hand side: panics exactly when the receiver is not
+// factorized (badCholesky), b does not have n rows (ErrShape), or a sized dst is
+// not n x bc (ErrShape), before dst is resized or written; otherwise dst is n x bc
+// (an empty dst is sized, a sized dst keeps storage and stride), only dst's
+// window is written, and Dpotrs is called inside its contract for every stride.
+// (A well-formed Dense has no zero dimension, so "b with zero columns" cannot occur.)
+
+//@ func Cholesky.SolveTo props: C07(safety) C05(frame)
+//@ option delegate-panics
+//@ let bd = unbox(b, *Dense)
+//@ let n = c.chol.mat.N
+//@ requires wfChol(c) && wfDense(dst) && hasType(b, *Dense) && wfDense(bd)
+//@ valid cholOK(c) && bd.mat.Rows == n && (dst.mat.Rows == 0 || (dst.mat.Rows == n && dst.mat.Cols == bd.mat.Cols))
+//@ panics iff !valid, before-writes
+//@ modifies dst
+//@ writes dst.mat.Data[k] for k in 0..n*bd.mat.Cols if dst.mat.Rows == 0 ; dst.mat.Data[i*dst.mat.Stride+j] for i in 0..dst.mat.Rows, j in 0..dst.mat.Cols
+//@ ensures wfDense(dst) && dst.mat.Rows == n && dst.mat.Cols == old(bd.mat.Cols)
+//@ ensures old(dst.mat.Rows) != 0 ==> sameSlice(dst.mat.Data, old(dst.mat.Data)) && dst.mat.Stride == old(dst.mat.Stride)
+
+// SolveVecTo for a *VecDense right-hand side and a sized dst. Every panic (not
+// factorized, shape, partial overlap of dst and b) is raised before anything is
+// written; a normal return means the receiver was factorized, b and dst have
+// length n, dst kept its storage and shares no element with b unless it is b,
+// and only dst's elements were written.
+//
+// Repaired defect ("fix: the SolveVecTo methods size the destination ..."): as in
+// VecDense.AddScaledVec, dst.checkOverlap(bmat) ran BEFORE dst.reuseAsNonZeroed(n), so an emptied
+// dst that still holds storage inside b's array reached off%inc with inc == 0:
+//   data := make([]float64, 6); dst := NewVecDense(3, data[1:4]); dst.Reset(); b := NewVecDense(3, data[0:3])
+//   chol.SolveVecTo(dst, b)          // was: runtime error: integer divide by zero (also LU, QR, LQ, band, pivoted)
+// (call.pre "dst.checkOverlap: v != nil && wfVec(v.mat) && wfVec(a)" sat on the earlier text for an
+// empty dst). The block is stated for a sized dst ("dst.mat.Inc != 0"): an empty dst is sized first,
+// which is a write before a possible overlap panic, as everywhere in mat.
+
+//@ func Cholesky.SolveVecTo props: C07(safety) C05(frame)
+//@ option may-panic
+//@ option delegate-panics
+//@ option dead-return-ok
+//@ let bv = unbox(b, *VecDense)
+//@ let n = c.chol.mat.N
+//@ requires wfChol(c) && wfVD(dst) && hasType(b, *VecDense) && wfVD(bv) && dst.mat.Inc != 0
+//@ panic-ensures !written()
+//@ modifies dst
+//@ writes dst.mat.Data[i*dst.mat.Inc] for i in 0..dst.mat.N
+//@ ensures cholOK(c) && old(bv.mat.N) == n && wfVD(dst) && dst.mat.N == n
+//@ ensures sameSlice(dst.mat.Data, old(dst.mat.Data)) && dst.mat.Inc == old(dst.mat.Inc)
+//@ ensures dst != bv ==> noCommonVec(dst.mat, bv.mat)
+
+// LU: Dims, isValid, Cond ("will panic if the receiver does not contain a
+// factorization"), At (ErrRowAccess / ErrColAccess; the permuted row index and
+// every cell read are in range), Reset (keeps storage, nothing written).
+
+//@ spec wfLU(lu *LU) bool = lu != nil && (lu.lu == nil || (wfDense(lu.lu) && lu.lu.mat.Rows == lu.lu.mat.Cols &&
+//@   len(lu.swaps) == lu.lu.mat.Rows && len(lu.piv) == lu.lu.mat.Rows &&
+//@   forall(k, 0, lu.lu.mat.Rows, 0 <= lu.swaps[k] && lu.swaps[k] < lu.lu.mat.Rows && 0 <= lu.piv[k] && lu.piv[k] < lu.lu.mat.Rows)))
+//@ spec luOK(lu *LU) bool = lu.lu != nil && lu.lu.mat.Rows != 0
+
+//@ func LU.Dims props: C07(safety)
+//@ requires wfLU(lu)
+//@ writes nothing
+//@ ensures r == ite(lu.lu == nil, 0, lu.lu.mat.Rows) && c == r
+
+//@ func LU.isValid props: C07(safety)
+//@ requires wfLU(lu)
+//@ writes nothing
+//@ ensures result == luOK(lu)
+
+//@ func LU.Cond props: C07(safety)
+//@ requires wfLU(lu)
+//@ valid luOK(lu)
+//@ panics iff !valid, before-writes
+//@ writes nothing
+
+//@ func LU.At props: C07(safety)
+//@ requires wfLU(lu)
+//@ let n = ite(lu.lu == nil, 0, lu.lu.mat.Rows)
+//@ valid 0 <= i && i < n && 0 <= j && j < n
+//@ panics iff !valid, before-writes
+//@ writes nothing
+
+//@ func LU.Reset props: C07(safety)
+//@ requires wfLU(lu)
+//@ let d = lu.lu
+//@ modifies lu, d
+//@ writes nothing
+//@ ensures wfLU(lu) && !luOK(lu)
+
+// Not under contract (engine subset; messages of govc with a probe block
+// "requires wfLU(lu) && hasType(a|b, *Dense) ... / option may-panic"):
+//   LU.Factorize                 OUTSIDE-SUBSET: interface method call a.Dims()   (hasType of the parameter is not carried into the inlined lu.factorize)
+//   LU.factorize                 OUTSIDE-SUBSET: defer with arguments             (updateCond: defer putFloat64s(work); with the pool model above)
+//   LU.SolveTo, LU.SolveVecTo    OUTSIDE-SUBSET: array of non-scalar [63]sync.Pool  (isolatedWorkspace -> getDenseWorkspace / getVecDenseWorkspace)
+//   LU.LogDet, LU.Det            getFloat64s (same message without the pool model)
+//   QR.factorize, LQ.factorize   OUTSIDE-SUBSET: branch statement goto            (reached through updateCond -> Dtrcon -> Dlatrs; with the pool model)
+//   QR.SolveTo, LQ.SolveTo       OUTSIDE-SUBSET: array of non-scalar [63]sync.Pool  (getDenseWorkspace)
+//   Cholesky.Factorize without the ASSUMPTION blocks: OUTSIDE-SUBSET: array of non-scalar [63]sync.Pool, then OUTSIDE-SUBSET: defer with arguments.
+// So wfLU is a stated representation invariant that LU.Reset preserves; that
+// LU.Factorize establishes it is not machine-checked. The workspace-query
+// pattern of QR / LQ (lwork = int(work[0]) after a call with lwork == -1) would
+// in addition need "ensures" clauses on work[0] in the contracts of Dgeqrf,
+// Dgelqf, Dormqr, Dormlq, Dorgqr, Dorglq, which state none.
